@@ -35,6 +35,14 @@ func (m *Mutex) canProceed(t *task) bool { return !m.held }
 
 func (m *Mutex) Lock() {
 	if !active || cur == nil {
+		if Solo {
+			if !m.real.TryLock() {
+				soloFail("LIBRARY_BLOCKED", "mutex locked at "+m.lockedFn+"; holder "+soloHow(), map[string]string{"locked_at": m.lockedAt, "note": "single caller, nobody else can release it"})
+			}
+			m.lockedAt, m.lockedFn = callerOutside()
+			soloHeld = append(soloHeld, "mutex locked at "+m.lockedFn)
+			return
+		}
 		m.real.Lock()
 		return
 	}
@@ -82,6 +90,9 @@ func (m *Mutex) TryLock() bool {
 
 func (m *Mutex) Unlock() {
 	if !active || cur == nil {
+		if Solo {
+			soloDrop("mutex locked at " + m.lockedFn)
+		}
 		m.real.Unlock()
 		return
 	}
@@ -131,6 +142,14 @@ func (r rwRead) canProceed(t *task) bool  { return !r.m.writer }
 
 func (m *RWMutex) Lock() {
 	if !active || cur == nil {
+		if Solo {
+			if !m.real.TryLock() {
+				soloFail("LIBRARY_BLOCKED", "rwmutex locked at "+m.lockedFn+"; holder "+soloHow(), map[string]string{"locked_at": m.lockedAt})
+			}
+			m.lockedAt, m.lockedFn = callerOutside()
+			soloHeld = append(soloHeld, "rwmutex locked at "+m.lockedFn)
+			return
+		}
 		m.real.Lock()
 		return
 	}
@@ -155,6 +174,9 @@ func (m *RWMutex) Lock() {
 
 func (m *RWMutex) Unlock() {
 	if !active || cur == nil {
+		if Solo {
+			soloDrop("rwmutex locked at " + m.lockedFn)
+		}
 		m.real.Unlock()
 		return
 	}
@@ -193,6 +215,14 @@ func dropRW(m *RWMutex) {
 
 func (m *RWMutex) RLock() {
 	if !active || cur == nil {
+		if Solo {
+			if !m.real.TryRLock() {
+				soloFail("LIBRARY_BLOCKED", "rwmutex locked at "+m.lockedFn+"; holder "+soloHow(), map[string]string{"locked_at": m.lockedAt})
+			}
+			m.lockedAt, m.lockedFn = callerOutside()
+			soloHeld = append(soloHeld, "rwmutex locked at "+m.lockedFn)
+			return
+		}
 		m.real.RLock()
 		return
 	}
@@ -215,6 +245,9 @@ func (m *RWMutex) RLock() {
 
 func (m *RWMutex) RUnlock() {
 	if !active || cur == nil {
+		if Solo {
+			soloDrop("rwmutex locked at " + m.lockedFn)
+		}
 		m.real.RUnlock()
 		return
 	}
@@ -281,11 +314,11 @@ func (m *RWMutex) RLocker() sync.Locker { return (*rlocker)(m) }
 // Once
 
 type Once struct {
-	real    sync.Once
-	state   int // 0 new, 1 running, 2 done
-	runner  int
-	vc      vclock
-	ord     int32
+	real   sync.Once
+	state  int // 0 new, 1 running, 2 done
+	runner int
+	vc     vclock
+	ord    int32
 }
 
 func (o *Once) canProceed(t *task) bool { return o.state != 1 }
@@ -508,4 +541,42 @@ func AtomicStorePointer(p *unsafe.Pointer, v unsafe.Pointer) {
 func AtomicCompareAndSwapPointer(p *unsafe.Pointer, o, n unsafe.Pointer) bool {
 	atomPoint(unsafe.Pointer(p), true, true)
 	return atomic.CompareAndSwapPointer(p, o, n)
+}
+
+// ---------------------------------------------------------------------------
+// Solo mode: pass-through execution by a single caller (the fresh-process
+// oracle). A lock that cannot be taken can never be released by anybody, and a
+// lock still held when the call is over blocks every later caller.
+
+var (
+	Solo     bool
+	SoloFail func(class, key string, detail map[string]string)
+	soloHeld []string
+)
+
+func soloHow() string {
+	return "is the single caller itself (an earlier call left it locked, or the lock is re-entered)"
+}
+
+func soloFail(class, key string, d map[string]string) {
+	if SoloFail != nil {
+		SoloFail(class, key, d)
+	}
+	panic("simrt: solo violation " + class + " " + key)
+}
+
+func soloDrop(name string) {
+	for i := len(soloHeld) - 1; i >= 0; i-- {
+		if soloHeld[i] == name {
+			soloHeld = append(soloHeld[:i], soloHeld[i+1:]...)
+			return
+		}
+	}
+}
+
+// SoloEnd reports a lock that is still held after the call.
+func SoloEnd(how string) {
+	if Solo && len(soloHeld) > 0 {
+		soloFail("LIBRARY_BLOCKED", soloHeld[len(soloHeld)-1]+" still held after call "+how, map[string]string{"how": how})
+	}
 }
